@@ -36,11 +36,25 @@ const (
 	allowedExtCSVGZ = ".csv.gz"
 )
 
+// IsValidLookupFilename reports whether name is a plain file name: lookup files live directly in the lookups
+// directory, so a name with a path separator or a dot-dot segment would address a file somewhere else.
+func IsValidLookupFilename(name string) bool {
+	if name == "" || name == "." || name == ".." {
+		return false
+	}
+	return !strings.ContainsAny(name, "/\\")
+}
+
 func UploadLookupFile(ctx *fasthttp.RequestCtx) {
 	fileName := string(ctx.FormValue("name"))
 	if fileName == "" {
 		log.Error("UploadLookupFile: File name is required")
 		ctx.Error("File name is required", fasthttp.StatusBadRequest)
+		return
+	}
+	if !IsValidLookupFilename(fileName) {
+		log.Errorf("UploadLookupFile: Invalid file name: %v", fileName)
+		ctx.Error("Invalid file name", fasthttp.StatusBadRequest)
 		return
 	}
 
@@ -167,6 +181,10 @@ func GetAllLookupFiles(ctx *fasthttp.RequestCtx) {
 
 func GetLookupFile(ctx *fasthttp.RequestCtx) {
 	lookupFilename := utils.ExtractParamAsString(ctx.UserValue("lookupFilename"))
+	if !IsValidLookupFilename(lookupFilename) {
+		ctx.Error("Invalid file name", fasthttp.StatusBadRequest)
+		return
+	}
 
 	lookupsDir := config.GetLookupPath()
 	filePath := filepath.Join(lookupsDir, lookupFilename)
@@ -195,6 +213,10 @@ func GetLookupFile(ctx *fasthttp.RequestCtx) {
 
 func DeleteLookupFile(ctx *fasthttp.RequestCtx) {
 	lookupFilename := utils.ExtractParamAsString(ctx.UserValue("lookupFilename"))
+	if !IsValidLookupFilename(lookupFilename) {
+		ctx.Error("Invalid file name", fasthttp.StatusBadRequest)
+		return
+	}
 
 	lookupsDir := config.GetLookupPath()
 	filePath := filepath.Join(lookupsDir, lookupFilename)
